@@ -117,12 +117,7 @@ def dec_natlist(s, sep="."):
     return [] if s in ("-", "") else [int(x) for x in s.split(sep)]
 
 
-def run_driver(lines, timeout=600):
-    """send all request lines to the compiled driver, return the answer lines"""
-    if not lines:
-        return []
-    if not os.path.exists(DRIVER):
-        raise RuntimeError("driver not built: " + DRIVER)
+def _run_driver_chunk(lines, timeout):
     p = subprocess.run([DRIVER], input="\n".join(lines) + "\n", capture_output=True, text=True, timeout=timeout)
     if p.returncode != 0:
         raise RuntimeError(f"driver failed rc={p.returncode}: {p.stderr[:500]}")
@@ -132,6 +127,28 @@ def run_driver(lines, timeout=600):
     if len(out) != len(lines):
         raise RuntimeError(f"driver answered {len(out)} lines for {len(lines)} requests")
     return out
+
+
+def run_driver(lines, timeout=900):
+    """send all request lines to the compiled driver, return the answer lines (the driver is stateless per line, so large
+    batches are split over several driver processes)"""
+    if not lines:
+        return []
+    if not os.path.exists(DRIVER):
+        raise RuntimeError("driver not built: " + DRIVER)
+    lines = list(lines)
+    if len(lines) < 600:
+        return _run_driver_chunk(lines, timeout)
+    from concurrent.futures import ThreadPoolExecutor
+    workers = min(8, max(1, len(lines) // 300))
+    # interleave so that expensive requests (which tend to cluster) are spread over the workers
+    chunks = [lines[i::workers] for i in range(workers)]
+    with ThreadPoolExecutor(max_workers=workers) as ex:
+        outs = list(ex.map(lambda c: _run_driver_chunk(c, timeout), chunks))
+    res = [None] * len(lines)
+    for i, o in enumerate(outs):
+        res[i::workers] = o
+    return res
 
 
 # ---------------------------------------------------------------- comparison helpers
